@@ -197,7 +197,7 @@ func loginEdits(encrypted bool) []loginEdit {
 					c := c
 					set(fmt.Sprintf("cipher %d", c), "MUST-FAIL", func(x *lPkg) { x.Cipher = c })
 				}
-				for _, k := range []string{"empty", "garbage", "trailing", "pkix", "small"} {
+				for _, k := range []string{"empty", "garbage", "trailing", "pkix", "small", "whitespace", "notpem"} {
 					k := k
 					set("key "+k, "MUST-FAIL", func(x *lPkg) { x.Key = k })
 				}
@@ -335,6 +335,10 @@ func (pk lPkg) encode(p *loginPlan) []byte {
 			key = []byte(rsaKeys[p.KeyBits].PubPKIX)
 		case "small":
 			key = []byte(rsaKeys[512].PubPKCS1)
+		case "whitespace":
+			key = []byte("\n \n")
+		case "notpem":
+			key = []byte{0x30, 0x82, 0x01, 0x0a, 0x02, 0x82, 0x01, 0x01, 0x00, 0xff, 0x00, 0x13, 0x37}
 		}
 		var vals []peer.Val
 		for i, t := range pk.Types {
